@@ -264,10 +264,24 @@ def w_image(pid, tier, seed, job):
             vols = []
             for vi in range(rng.randint(1, 3)):
                 files = [AW.SampleFile(name=rng.choice(voc), pcm=struct.pack("<4h", 1, 2, 3, 4)) for _ in range(rng.randint(0, 5))]
+                if files and rng.random() < 0.5:                      # siblings with the same stored name
+                    files.insert(rng.randint(0, len(files)), AW.SampleFile(name=rng.choice(files).name, pcm=struct.pack("<2h", 7, 8)))
                 vols.append(AW.Volume(rng.choice(voc), files))
+            if rng.random() < 0.4:
+                vols.append(AW.Volume(vols[0].name, [AW.SampleFile(name="TWIN", pcm=struct.pack("<2h", 5, 6))]))
             parts.append(AW.Partition(vols, size_sectors=48))
-        tmp = R.TempImage(AW.image_bytes(parts))
-        kind = "akai"
+        img = AW.image_bytes(parts)
+        # the same image opened directly, through a cue sheet with a data track, or inside a 2352-byte-sector / MDX container
+        how = ["raw", "cue", "cue", "2352", "mdx"][(job // 3) % 5]
+        if how == "cue":
+            tmp = R.TempImage(R.cue_text("d.bin", [{"mode": "MODE1/2048", "indices": [(1, 0, 0, 0)]}]).encode(), "i.cue", {"d.bin": img})
+        elif how == "2352":
+            tmp = R.TempImage(AW.wrap_2352(img))
+        elif how == "mdx":
+            tmp = R.TempImage(AW.wrap_mdx(img))
+        else:
+            tmp = R.TempImage(img)
+        kind = "akai/" + how
     with tmp as path:
         def visit(prefix, depth):
             r = R.ls(path, "/".join(prefix))
